@@ -406,10 +406,9 @@ Section NoPanicEval.
       unfold call_passed. destruct f; try discriminate.
       + (* lambda *)
         unfold check_arity, accepts in Ha. cbn [fn_arity] in Ha.
-        pose proof (bind_params_total args0 args
-                      ((match lookup fr "inputs" with Some i => [("inputs", i)] | None => [] end)
-                       ++ (match lam_name st id with Some n => [(n, this)] | None => [] end)) Ha) as Hb.
-        destruct (bind_params args0 0 args _) as [local|]; [|congruence].
+        match goal with |- context [bind_params args0 0 args ?acc] =>
+          pose proof (bind_params_total args0 args acc Ha) as Hb;
+          destruct (bind_params args0 0 args acc) as [local|]; [|congruence] end.
         match goal with |- context [evalE ?r ?b ?a ?c ?e] =>
           pose proof (evalE_no_panic a (fun fr0 => IH d' (Nat.lt_succ_diag_r d') fr0) e c) as He;
           destruct (evalE r b a c e) as [rr [st1 fr1]] end.
